@@ -625,6 +625,49 @@ def case_untracked(ctx, index, rng: random.Random):
     rec.case(["untracked", e, how_b, np.asarray(a.frequencies).tolist(), np.asarray(b.frequencies).tolist()], True, cls=f"untracked/{how_b}")
 
 
+def case_untracked_adaptive(ctx, index, rng: random.Random):
+    """An adaptive histogram plus one on the same grid (other bins) that dropped values outside its bins without counting them
+    (keep_missed=False): the sum cannot report as a known fact that nothing was missed."""
+    import physt
+
+    rec = ctx.rec
+    rec.mon("C05.partition.equiv")
+    w = float(rng.choice([1.0, 0.5, 2.0]))
+    a_data = np.asarray([rng.uniform(0, 4 * w) for _ in range(rng.randint(1, 8))])
+    lo = float(rng.choice([6, 8, -10])) * w
+    nb = rng.randint(2, 4)
+    b_edges = lo + w * np.arange(nb + 1)
+    b_in = [float(rng.uniform(lo + 0.01, lo + nb * w - 0.01)) for _ in range(rng.randint(1, 6))]
+    dropped = [lo - 2.5 * w] * rng.randint(0, 2) + [lo + (nb + 2.5) * w] * rng.randint(0, 2)
+    a = physt.h1(a_data, "fixed_width", bin_width=w, adaptive=True)
+    # (a fixed-width binning of its own: bins given as an array cannot be extended)
+    b = physt.h1(np.asarray(b_in + dropped), "fixed_width", bin_width=w, range=(float(b_edges[0]), float(b_edges[-1])), keep_missed=False)
+    order = rng.choice(["a+b", "a+=b", "sum"])
+    try:
+        with warnings.catch_warnings():
+            warnings.simplefilter("ignore")
+            if order == "a+b":
+                r = a + b
+            elif order == "a+=b":
+                r = a.copy()
+                r += b
+            else:
+                r = sum([a, b])
+    except Exception as ex:
+        rec.skip("C05.partition.equiv", f"untracked_adaptive_refused/{type(ex).__name__}")
+        rec.case(["untracked_adaptive", "refused", order], False, cls="untracked_adaptive/refused")
+        return
+    with attach.quiet():
+        under, over = float(r.underflow), float(r.overflow)
+        total = float(np.sum(r.frequencies))
+        if total != len(a_data) + len(b_in):
+            rec.fail(monitor="C05.partition.equiv", op=order, symptom="contents of the adaptive sum are not the sums of the contents", diff=["frequencies"], detail={"total": total, "want": len(a_data) + len(b_in)})
+        if not (math.isnan(under) and math.isnan(over)):
+            rec.fail(monitor="C05.partition.equiv", op=order, symptom="an operand that does not keep its missed values was added, yet the result reports a known underflow / overflow",
+                     diff=["underflow", "overflow", "keep_missed"], detail={"adaptive": True, "result": [bool(r.keep_missed), under, over], "dropped": len(dropped), "b_edges": b_edges.tolist()})
+    rec.case(["untracked_adaptive", order, w, lo, nb, a_data.tolist(), b_in, len(dropped)], True, cls=f"untracked_adaptive/{order}")
+
+
 def case_narrow_sum(ctx, index, rng: random.Random):
     """Operands with compact integer contents (int16 / int32) whose sums - of contents, squared errors or missed weights - do not fit
     the type: the sum is exact (the type widens) or the addition is refused as a whole; and a Histogram1D is not added to a one-axis
@@ -755,6 +798,7 @@ def run(ctx):
     ctx.run_cases(ctx.scale(60, 400), case_from_arrays, salt="arrays")
     ctx.run_cases(ctx.scale(60, 400), case_adaptive_missed, salt="admissed")
     ctx.run_cases(ctx.scale(60, 400), case_collection_sum, salt="colsum")
+    ctx.run_cases(ctx.scale(60, 300), case_untracked_adaptive, salt="untracked_adaptive")
     ctx.run_cases(ctx.scale(300, 2500), case_static, salt="static")
     ctx.run_cases(ctx.scale(300, 2500), case_adaptive, salt="adaptive")
     ctx.run_cases(ctx.scale(80, 400), case_refusal, salt="refusal")
